@@ -1,7 +1,8 @@
 (* C12 - commit and uncommit move the stack base without rewriting history.
    Only the property theorems; proofs in Proofs/CommitProofs.v and by computation on Gen/. *)
 From Coq Require Import String.
-From StgV Require Import Model.CmdSpec Model.LogSpec Gen.CmdTable Proofs.CommitProofs Proofs.CommitRoundTrip.
+From StgV Require Import Model.CmdSpec Model.LogSpec Gen.CmdTable Proofs.CommitProofs Proofs.CommitRoundTrip
+  Proofs.UncommitCommitRoundTrip.
 
 (* committing the bottom-most applied patches creates no object, keeps the head, removes
    exactly those patches and makes the last of them the base *)
@@ -116,6 +117,36 @@ Theorem C12_commit_uncommit_nonvacuous :
     /\ step (fun s => s) w1 (CUncommit None (rev (firstn 2 (s_applied st0)))) = (w2, X0).
 Proof. exact commit_uncommit_nonvacuous. Qed.
 Print Assumptions C12_commit_uncommit_nonvacuous.
+
+(* the round trip in the other direction (proof in Proofs/UncommitCommitRoundTrip.v): `stg uncommit
+   -n k` (generated names) followed by `stg commit -n k` puts the k commits back below the base
+   unchanged and leaves the lists, every remaining patch's commit, branch, index and work tree as
+   they were *)
+Theorem C12_uncommit_commit_roundtrip :
+  forall lower_s, LowerOK lower_s ->
+  forall w st0 k w1 w2,
+    Inv6 w ->
+    cur_state w = Some st0 ->
+    (1 <= k)%nat ->
+    step lower_s w (CUncommit (Some (N.of_nat k)) []) = (w1, X0) ->
+    step lower_s w1 (CCommit None (Some (N.of_nat k)) false true) = (w2, X0) ->
+    (exists st2, cur_state w2 = Some st2
+                 /\ s_applied st2 = s_applied st0 /\ s_unapplied st2 = s_unapplied st0
+                 /\ s_hidden st2 = s_hidden st0
+                 /\ s_head st2 = w_branch w
+                 /\ (forall n, pm_get (s_patches st2) n = pm_get (s_patches st0) n))
+    /\ w_branch w1 = w_branch w /\ w_branch w2 = w_branch w
+    /\ w_wt w2 = w_wt w /\ w_unmerged w2 = w_unmerged w.
+Proof. exact uncommit_commit_roundtrip. Qed.
+Print Assumptions C12_uncommit_commit_roundtrip.
+
+Theorem C12_uncommit_commit_nonvacuous :
+  exists w st0 w1 w2,
+    cur_state w = Some st0
+    /\ step (fun s => s) w (CUncommit (Some 2%N) []) = (w1, X0)
+    /\ step (fun s => s) w1 (CCommit None (Some 2%N) false true) = (w2, X0).
+Proof. exact uncommit_commit_nonvacuous. Qed.
+Print Assumptions C12_uncommit_commit_nonvacuous.
 
 (* --- tie to the current source --- *)
 (* stg uncommit runs its transaction with set_head(false) and use_index_and_worktree(false) *)
